@@ -11,4 +11,6 @@ pub mod observer_cycle;
 pub mod overlap;
 pub mod pathparam;
 pub mod scopes;
+pub mod selfcycle;
+pub mod unicode;
 pub mod unit;
